@@ -12,6 +12,7 @@ package ssh
 //gvc:func writeShellQuote
 //gvc:  props C41
 //gvc:  theory int
+//gvc:  modifies b.#sq_q, b.#sq_out, b.#sq_n, b.#blen
 //gvc:  requires bnn: b != nil
 //gvc:  requires start: b.#sq_q == 0
 //gvc:  let n0 = b.#sq_n
